@@ -240,13 +240,12 @@ each with the reason it is (or is not) harmless -/
 def unsortedMapRangeExceptions : List (String × String) := [
   -- "The resulting slice is not sorted": both callers sort (httptype.go `slices.Sort(hosts)`, tlsapp.go `sort.Strings(hostsNotHTTP)`)
   ("caddyconfig/httpcaddyfile/directives.go:hostsFromKeys", "hostMap"),
-  ("caddyconfig/httpcaddyfile/directives.go:hostsFromKeysNotHTTP", "hostMap"),
-  -- appends to `al` (sorted by `slices.Sort(al)` in the enclosing block) AND to internalAP.SubjectsRaw, which is
-  -- NOT sorted: known finding `nondeterministic-output:internal-policy-subjects`
-  ("caddyconfig/httpcaddyfile/tlsapp.go:buildTLSApp", "httpsHostsSharedWithHostlessKey")]
+  ("caddyconfig/httpcaddyfile/directives.go:hostsFromKeysNotHTTP", "hostMap")]
+-- (buildTLSApp's range over httpsHostsSharedWithHostlessKey used to be a third entry: it fills `al`, sorted all along, and
+--  internalAP.SubjectsRaw, sorted since 5feb9e1 — before that the same Caddyfile adapted to different bytes)
 
 /-- every map range in caddyconfig/httpcaddyfile/*.go and modules/**/caddyfile.go that appends to a
-slice either (a) appends the map KEY itself and is followed by a plain sort of that slice
+slice either (a) appends the map KEY itself and is followed — in the block of the loop or an enclosing one — by a plain sort of that slice
 (`sort.Strings` / `slices.Sort`: the sort key is the map key, injective — `sortByKey_perm_invariant`
 applies), or (b) is one of the listed exceptions.  A range that sorts by anything else
 (`sort.Slice` with a comparator, an appended derived value) makes this theorem fail. -/
